@@ -39,6 +39,7 @@ def answer (line : String) : String :=
       | "norm" => normRequest false kv
       | "lnorm" => normRequest true kv
       | "zig" => zigRequest kv
+      | "single" => singleRequest kv
       | "slpblock" => slpblockRequest kv
       | "specblock" => specblockRequest kv
       | _ => none
